@@ -5,6 +5,7 @@ import (
 	"go/token"
 	"go/types"
 	"regexp/syntax"
+	"strings"
 
 	"golang.org/x/tools/go/ssa"
 )
@@ -1014,4 +1015,165 @@ func (g *cgraph) fillBound(ph *ssa.Phi, key string) {
 		}
 	}
 	g.le(key, lt, 0)
+}
+
+// memReverseScan: the reverse scan that cuts a slice held in memory.
+//
+//	for i := len(L) - 1; i >= 0; i-- { … L[i] … ; L = L[:i] (on some paths) }
+//
+// L is a location named by an access path (a field of a parameter, an element's field, …) whose
+// loads inside the loop all denote the same path.  i is a header phi with initial value
+// len(load of L in the loop's entry predecessor) − 1 and back-edge value i − 1.  Inside the loop the
+// only stores to L are L = (load of L)[:i], nothing stored in the loop is a prefix of L's path, and
+// no call in the loop may write L.  Then at a load of L in the loop: i ≤ len − 1 when no store to L
+// can have happened earlier in the same trip, i ≤ len otherwise (after L = L[:i] the length is i).
+func (g *cgraph) memReverseScan(ld *ssa.UnOp, lt string) {
+	a := g.a
+	loc := a.pathOf(ld.X, 0)
+	fn := ld.Parent()
+	if loc == "" || fn == nil || strings.HasPrefix(loc, "a:") {
+		return
+	}
+	for _, li := range loopsOf(fn) {
+		if !li.blocks[ld.Block()] {
+			continue
+		}
+		for _, ins := range li.header.Instrs {
+			ph, ok := ins.(*ssa.Phi)
+			if !ok {
+				break
+			}
+			if !isIntegerT(ph.Type()) {
+				continue
+			}
+			okPhi := true
+			var init ssa.Value
+			var entry *ssa.BasicBlock
+			for i, e := range ph.Edges {
+				if li.blocks[li.header.Preds[i]] {
+					if b, k := linear(e); b != ssa.Value(ph) || k != -1 {
+						okPhi = false
+					}
+					continue
+				}
+				if init != nil {
+					okPhi = false
+				}
+				init, entry = e, li.header.Preds[i]
+			}
+			if !okPhi || init == nil {
+				continue
+			}
+			base, k := linear(init)
+			lc, ok := base.(*ssa.Call)
+			if !ok || k != -1 {
+				continue
+			}
+			if bi, ok := lc.Call.Value.(*ssa.Builtin); !ok || bi.Name() != "len" {
+				continue
+			}
+			l0, ok := lc.Call.Args[0].(*ssa.UnOp)
+			if !ok || l0.Op != token.MUL || a.pathOf(l0.X, 0) != loc || l0.Block() != entry {
+				continue
+			}
+			// stores in the loop
+			good := true
+			var cuts []*ssa.Store
+			for b := range li.blocks {
+				for _, x := range b.Instrs {
+					st, ok := x.(*ssa.Store)
+					if !ok {
+						continue
+					}
+					sl := a.pathOf(st.Addr, 0)
+					if sl == "" {
+						continue
+					}
+					if sl == loc {
+						sv, ok := st.Val.(*ssa.Slice)
+						if !ok || sv.Low != nil || sv.High != ssa.Value(ph) || sv.Max != nil {
+							good = false
+							continue
+						}
+						sx, ok := sv.X.(*ssa.UnOp)
+						if !ok || sx.Op != token.MUL || a.pathOf(sx.X, 0) != loc {
+							good = false
+							continue
+						}
+						cuts = append(cuts, st)
+					} else if strings.HasPrefix(loc, sl) && (len(loc) == len(sl) || loc[len(sl)] == '.' || loc[len(sl)] == '[') {
+						good = false // something L's path goes through is reassigned
+					}
+				}
+			}
+			if !good || loopCallsWrite(ld.X, li, fn, a.p) {
+				continue
+			}
+			// can a cut precede this load in the same trip?
+			after := false
+			for _, st := range cuts {
+				if st.Block() == ld.Block() {
+					if instrIndex(st) < instrIndex(ld) {
+						after = true
+					}
+					continue
+				}
+				seen := map[*ssa.BasicBlock]bool{}
+				work := []*ssa.BasicBlock{st.Block()}
+				for len(work) > 0 {
+					x := work[len(work)-1]
+					work = work[:len(work)-1]
+					for _, s := range x.Succs {
+						if s == li.header || !li.blocks[s] || seen[s] {
+							continue
+						}
+						seen[s] = true
+						work = append(work, s)
+					}
+				}
+				if seen[ld.Block()] {
+					after = true
+				}
+			}
+			g.define(ph, 4)
+			if after {
+				g.le(a.regKey(ph), lt, 0)
+			} else {
+				g.le(a.regKey(ph), lt, -1)
+			}
+		}
+	}
+}
+
+// pathOf: the access path an address value denotes, followed through element and field addresses
+// and the loads between them (p:s.Lines[v:t7].Items); "" when it does not start at a named value.
+func (a *NilAnalysis) pathOf(addr ssa.Value, depth int) string {
+	if depth > 8 {
+		return ""
+	}
+	val := func(v ssa.Value) string { // a value used as base: a load of a path, or a register
+		if u, ok := v.(*ssa.UnOp); ok && u.Op == token.MUL {
+			if p := a.pathOf(u.X, depth+1); p != "" {
+				return p
+			}
+		}
+		switch x := v.(type) {
+		case *ssa.IndexAddr, *ssa.FieldAddr:
+			return a.pathOf(x, depth+1)
+		}
+		return a.key(v)
+	}
+	switch x := addr.(type) {
+	case *ssa.FieldAddr:
+		return val(x.X) + "." + fieldName(x.X.Type(), x.Field)
+	case *ssa.IndexAddr:
+		return val(x.X) + "[" + idxKey(x.Index) + "]"
+	case *ssa.Alloc:
+		return "a:" + x.Name()
+	case *ssa.Global:
+		return "g:" + x.Name()
+	case *ssa.FreeVar:
+		return "fv:" + x.Name()
+	}
+	return ""
 }
